@@ -1271,9 +1271,22 @@ impl Session {
                 "[Session] process_stream_data: Waiting for data from streams (iteration {})",
                 iteration
             );
+            // notify_waiters() stores no permit: register for the notification first, then
+            // re-check the flag, so that a close() landing between two waits is not lost
+            let notified = close_notify.notified();
+            tokio::pin!(notified);
+            notified.as_mut().enable();
+            if self.is_closed() {
+                tracing::debug!(
+                    session_id = session_id,
+                    "[Session] process_stream_data: Session closed before wait (iteration {})",
+                    iteration
+                );
+                break;
+            }
             let result = tokio::select! {
                 biased;
-                _ = close_notify.notified() => {
+                _ = &mut notified => {
                     tracing::debug!(
                         session_id = session_id,
                         "[Session] process_stream_data: Received close notification (iteration {})",
